@@ -100,7 +100,7 @@ def make_case(name, mem, lvl, mode, data, pieces, beh, incr=None):
     for p in pieces:
         L.append("send 0 " + hx(p))
         L.append("round")
-    L.append("rounds 10")
+    L.append("rounds 80")
     L.append("send 1 " + hx(GOOD))
     L.append("rounds 4")
     L.append("stop")
